@@ -181,6 +181,12 @@ def run(ctx):
             r = guarded(irr.simulate_npc_dist, Df, sz, None, np.array([float(v) for v in pv]), plus1)
         else:
             r = guarded(irr.simulate_npc_dist, Df, sz, np.array([float(v) for v in obs]), None, plus1)
+        if use_p and ctx.rng.random() < 0.4:      # references given as well: the supplied p-values are still the ones that are combined
+            rboth = guarded(irr.simulate_npc_dist, Df, sz, np.array([float(v) for v in obs]), np.array([float(v) for v in pv]), plus1); ctx.count("npcdist-both-references-and-pvalues")
+            if r[0] == "ok" and (rboth[0] != "ok" or abs(rboth[1]["obs_npc"] - r[1]["obs_npc"]) > 1e-12 or rboth[1]["pvalue"] != r[1]["pvalue"]):
+                ctx.violation("oracle", {"call": "simulate_npc_dist", "perm_distr": [[str(v) for v in r_] for r_ in D], "size": size, "plus1": plus1, "obs_ts": [str(v) for v in obs],
+                                         "pvalues": [str(v) for v in pv], "issue": "p-values supplied by the caller are not the ones combined when obs_ts is given as well",
+                                         "with_both": str(rboth[1:])[:200], "pvalues_only": str(r[1:])[:200]}, site="simulate_npc_dist")
         det = {"call": "simulate_npc_dist", "perm_distr": [[str(v) for v in r_] for r_ in D], "size": size, "plus1": plus1,
                "obs_ts": None if use_p else [str(v) for v in obs], "pvalues": [str(v) for v in pv] if use_p else None}
         ctx.case(("npcdist", tuple(map(tuple, D)), tuple(size), plus1, use_p, tuple(obs), tuple(pv)), True); ctx.count("simulate_npc_dist")
